@@ -1,11 +1,68 @@
 import PymtlVerif.Driver.Sexp
+import PymtlVerif.Model.CallGraph
 /-!
 Handler `callgraph`: executable face of `Model/CallGraph.lean` (expansion of `@s.func` helper calls in
-`ComponentLevel2._collect_vars`). Stub.
+`ComponentLevel2._collect_vars`).
+
+`callgraph expand (funcs ((reads) (writes) (calls)) ...) (blocks (isff (reads) (writes) (calls)) ...) [(tops t0 t1 ...)]`
+— the function table of one component (function `i` = the `i`-th entry; a callee id `≥` the number of functions is a
+callee that is not a function of the component), its update blocks (`isff` = `0|1` or `(0)|(1)`) and optionally the
+object → top-level signal map (identity if absent) — answers
+
+`blocks (<b> ...) marks (...) collect <c>`
+
+with `<b>` = `cycle` or `((reads) (writes))` (sorted, duplicate-free) per block from the per-block function `expand`,
+`marks` the signals marked through functions by the blocks that expand, and `<c>` = `cycle` or
+`(((reads) (writes)) ...) (marks)` read from the dicts the fold `collect` (blocks keyed by their index) ends with.
 -/
 namespace PV.Driver.CallGraph
-open PV
+open PV PV.CallGraph
 
-def handle (_args : List Sexp) : Option String := none
+def isff? : Sexp → Option Bool
+  | .list [x] => x.bool?
+  | x => x.bool?
+
+def func? : Sexp → Option Func
+  | .list [r, w, c] => do
+    let r ← r.nats?; let w ← w.nats?; let c ← c.nats?
+    some ⟨r, w, c⟩
+  | _ => none
+
+def blk? : Sexp → Option Blk
+  | .list [f, r, w, c] => do
+    let f ← isff? f
+    let r ← r.nats?; let w ← w.nats?; let c ← c.nats?
+    some ⟨f, r, w, c⟩
+  | _ => none
+
+def canon (xs : List Nat) : List Nat := (xs.toArray.qsort (· < ·)).toList.eraseDups
+
+def showSet (xs : List Nat) : String := natsToString (canon xs)
+
+def showBlk : Except Err Expanded → String
+  | .error _ => "cycle"
+  | .ok e => s!"({showSet e.reads} {showSet e.writes})"
+
+def run (T : Table) (blocks : List Blk) : String :=
+  let res := blocks.map (expand T)
+  let marks := res.flatMap (fun r => match r with | .ok e => e.marks | .error _ => [])
+  let keyed := (List.range blocks.length).zip blocks
+  let coll := match collect T {} keyed with
+    | .error _ => "cycle"
+    | .ok st =>
+      let ents := keyed.map (fun kb => s!"({showSet (st.reads.get kb.1)} {showSet (st.writes.get kb.1)})")
+      "(" ++ " ".intercalate ents ++ ") " ++ showSet st.marks
+  "blocks (" ++ " ".intercalate (res.map showBlk) ++ ") marks " ++ showSet marks ++ " collect " ++ coll
+
+def handle : List Sexp → Option String
+  | .atom "expand" :: .list (.atom "funcs" :: fs) :: .list (.atom "blocks" :: bs) :: rest => do
+    let funcs ← fs.mapM func?
+    let blocks ← bs.mapM blk?
+    let tops ← match rest with
+      | [] => some []
+      | [.list (.atom "tops" :: ts)] => ts.mapM Sexp.nat?
+      | _ => none
+    some (run { funcs := funcs, tops := tops } blocks)
+  | _ => none
 
 end PV.Driver.CallGraph
